@@ -78,6 +78,8 @@ def gen_case(rng, tier, direction=None, feats=None):
             BASE_DAY = keep
         if case['dir'] == 'fwd':
             case['clock'] = [x + 20090 * DAY_US for x in case['clock']]
+            if case.get('noStart'):
+                case['bound'] = case['clock'][0] - case.get('ctorLead', 0)      # (no start given: the project start is the clock at construction)
         return case
     return _gen_case(rng, tier, direction, feats)
 
